@@ -41,7 +41,8 @@ ASSUMPTIONS = [
 ]
 
 MANDATORY = ["system:receptions-with-a-receiver-clock", "system:records", "system:groups-merged-from-several-receivers", "cli:history:monotone", "cli:format:legacy(rssi per line)", "cli:format:metadata", "cli:history:non-monotone", "shape:reopened-frame", "shape:equal-stamps", "shape:decreasing-stamps", "shape:W=0",
-             "shape:undecodable-group-dropped", "shape:group>=3", "shape:joined-at-expiry", "shape:several-closed-at-once"]
+             "shape:undecodable-group-dropped", "shape:group>=3", "shape:joined-at-expiry", "shape:several-closed-at-once",
+             "shape:receptions-queued-ahead-of-the-task", "shape:window-closes-inside-a-queued-burst"]
 
 
 def overlong_frames(rsmon):
@@ -125,9 +126,19 @@ def model(window, ins, decodable):
     return due, open_groups, shapes
 
 
-def judge(window, ins, outs, events, decodable):
-    """ins: [(frame, ts, id)], outs: [(after, frame, ts, ids)] in emission order. Returns list of (class, text)."""
+def judge(window, ins, outs, events, decodable, holds=None):
+    """ins: [(frame, ts, id)], outs: [(after, frame, ts, ids)] in emission order. Returns list of (class, text).
+    holds[i]: reception i was queued without letting the task run (receivers ahead of the task): what is due after a held
+    reception can only be observed when the burst is drained, at the next reception that is not held"""
     bad = []
+    holds = holds or [False] * len(ins)
+    drain = list(range(len(ins)))
+    for i in range(len(ins) - 2, -1, -1):
+        if holds[i]:
+            drain[i] = drain[i + 1]
+    burst_start = {}
+    for i, d in enumerate(drain):
+        burst_start.setdefault(d, i)
     for e in events:
         if e.get("ev") in ("task-ended", "input-closed"):
             bad.append(("panic", f"deduplication task ended at input {e.get('i')}: {e.get('panic')}"))
@@ -167,9 +178,10 @@ def judge(window, ins, outs, events, decodable):
                 bad.append(("wrong-timestamp", f"record {k} has timestamp {ts!r}, its first member (input {first}) arrived at {ins[first][1]!r}"))
             first_ms = nows[first]
             if after != "close":
-                if nows[after] < first_ms + window:
+                b0 = max(first, burst_start.get(after, after))
+                if all(nows[j] < first_ms + window for j in range(b0, after + 1)):
                     bad.append(("early", f"record {k} (first arrival {first_ms} ms, W={window}) left after input {after} at {nows[after]} ms, before its window closed"))
-                for j in range(first, after):
+                for j in range(first, burst_start.get(after, after)):
                     if nows[j] >= first_ms + window:
                         bad.append(("late", f"record {k} (first arrival {first_ms} ms, W={window}) should have left after input {j} ({nows[j]} ms) but left after input {after}"))
                         break
@@ -192,8 +204,11 @@ def judge(window, ins, outs, events, decodable):
     got = {}
     for (after, frame, ts, ids) in outs:
         got.setdefault(after, []).append((frame, ts, tuple(ids)))
+    due_at_drain = [[] for _ in ins]
     for idx in range(len(ins)):
-        exp = sorted((f, t, i) for f, t, i, _ in due[idx])
+        due_at_drain[drain[idx]] += due[idx]
+    for idx in range(len(ins)):
+        exp = sorted((f, t, i) for f, t, i, _ in due_at_drain[idx])
         act = sorted(got.get(idx, []))
         if exp != act:
             missing = [x for x in exp if x not in act]
@@ -216,6 +231,11 @@ def judge(window, ins, outs, events, decodable):
         shapes.add("shape:decreasing-stamps")
     if window == 0:
         shapes.add("shape:W=0")
+    if any(holds):
+        shapes.add("shape:receptions-queued-ahead-of-the-task")
+        for d, b in burst_start.items():
+            if d - b >= 2 and any(due[j] for j in range(b, d)):
+                shapes.add("shape:window-closes-inside-a-queued-burst")
     nontrivial = any(due)
     return bad, shapes, nontrivial, monotone
 
@@ -224,9 +244,14 @@ def scenario_of(window, ins, tag):
     # one history in three runs with an output channel of 1 or 3 records: the task must wait for its consumer (as behind
     # the main loop's bounded channel), never drop what does not fit
     lines = [{"reset": window, "tag": tag, "cap": [100000, 1, 3][(len(ins) + int(window)) % 3] if len(ins) > 6 else 100000}]
-    for frame, ts, rid in ins:
+    # one history in three is fed in bursts: 2-6 receptions are queued before the task gets to run (receivers ahead of the
+    # task, as on a loaded machine); the grouping must be the one of the arrival order all the same
+    bursty = len(ins) >= 3 and (len(ins) * 7 + int(window) + sum(r for _, _, r in ins)) % 3 == 0
+    for pos, (frame, ts, rid) in enumerate(ins):
         # receptions of one receiver share its serial (as in production); the unique reception id travels separately
         line = {"frame": frame, "ts": ts, "id": rid, "rx": rid % 8}
+        if bursty and pos < len(ins) - 1 and (rid * 2654435761 >> 7) % 6 != 0:
+            line["hold"] = True
         # receivers 1 and 3 are GPS-timed (Radarcape-like): their metadata carries a clock of their own, one second
         # ahead of / behind the host's. Only the record's timestamp is the clock of the property.
         if rid % 8 == 1:
@@ -244,12 +269,13 @@ def split_log(log):
     for e in log:
         ev = e.get("ev")
         if ev == "reset":
-            cur = {"window": e["window"], "tag": e.get("tag"), "ins": [], "outs": [], "events": []}
+            cur = {"window": e["window"], "tag": e.get("tag"), "ins": [], "outs": [], "events": [], "holds": []}
             hist.append(cur)
         elif cur is None:
             continue
         elif ev == "in":
             cur["ins"].append((e["frame"], e["ts"], e["id"]))
+            cur["holds"].append(bool(e.get("hold")))
         elif ev == "out":
             cur["outs"].append((e["after"], e["frame"], e["ts"], e["ids"]))
         else:
@@ -274,7 +300,7 @@ def run_batch(rep, binary, batch, decodable):
             rep.violation("C10:panic", f"driver consumed {len(h['ins'])} of {len(ins)} inputs: {h['events']}",
                           {"mode": "dedup", "window": window, "ins": ins})
             continue
-        bad, shapes, nontrivial, monotone = judge(window, h["ins"], h["outs"], h["events"], decodable)
+        bad, shapes, nontrivial, monotone = judge(window, h["ins"], h["outs"], h["events"], decodable, h.get("holds"))
         for s in shapes:
             rep.cls(s)
         rep.cls("history:monotone" if monotone else "history:non-monotone")
